@@ -182,8 +182,13 @@ func (l *Listener) Accept() (net.Conn, error) {
 	}
 }
 
+// Close closes the listener; as with a real net.Listener, closing it again is an error.
 func (l *Listener) Close() error {
-	l.once.Do(func() { close(l.closed) })
+	first := false
+	l.once.Do(func() { close(l.closed); first = true })
+	if !first {
+		return &net.OpError{Op: "close", Net: "mem", Err: net.ErrClosed}
+	}
 	return nil
 }
 
